@@ -1,7 +1,7 @@
 """C05 - each emitted TypeScript type denotes the JSON shape serde produces.
 
 TLC enumerates Rust type expressions (spec/Gen_Types.tla: leaf classes under up to 2 (quick) / 3
-(thorough) of 21 one-hole contexts, binary nodes with composite arguments, plus simulated deeper
+(thorough) of 22 one-hole contexts, binary nodes with composite arguments, plus simulated deeper
 chains); every expression is placed at each of the five translation sites of a real project, the
 real CLI generates bindings in both modes, the output is parsed, and TLC judges every observation
 with ShapeEq(Shape(rust), ShapeOfTs(ts) | ShapeOfZod(zod)) from spec/TypeLang.tla.
